@@ -84,16 +84,16 @@ Fixpoint observe (d : dstate) (ops : list op) : list sx :=
   | o :: r => let d' := step d o in e_obs d' :: observe d' r
   end.
 
-(* case := [opts; states; transitions; initial; ops; acts; budget] *)
+(* case := [opts; states; transitions; initial; ops; acts; budget; regen] *)
 Definition run_diagram_case (x : sx) : sx :=
   match x with
-  | L [ox; sx_; tx; ix; opx; ax; N bud] =>
+  | L [ox; sx_; tx; ix; opx; ax; N bud; rx] =>
       match d_opts ox, d_list d_stree sx_, d_list d_trans tx, d_name ix, d_list d_op opx,
-            d_list (d_pair d_str d_str) ax with
-      | Some o, Some f, Some ts, Some i, Some ops, Some acts =>
-          let d0 := init_state (mkM f ts i o acts bud) in
+            d_list (d_pair d_str d_str) ax, d_list d_str rx with
+      | Some o, Some f, Some ts, Some i, Some ops, Some acts, Some rg =>
+          let d0 := init_state (mkM f ts i o acts bud rg) in
           L [N 1; L (e_obs d0 :: observe d0 ops)]
-      | _, _, _, _, _, _ => L [N 0]
+      | _, _, _, _, _, _, _ => L [N 0]
       end
   | _ => L [N 0]
   end.
